@@ -8,6 +8,7 @@
 
 #include <fcppt/make_cref.hpp>
 #include <fcppt/reference_impl.hpp>
+#include <fcppt/unit.hpp>
 #include <fcppt/string_literal.hpp>
 #include <fcppt/container/join.hpp>
 #include <fcppt/either/map.hpp>
@@ -21,6 +22,7 @@
 #include <fcppt/tuple/get.hpp>
 #include <fcppt/config/external_begin.hpp>
 #include <string>
+#include <type_traits>
 #include <utility>
 #include <fcppt/config/external_end.hpp>
 
@@ -42,9 +44,21 @@ fcppt::parse::repetition_plus<Parser>::parse(
 
   return fcppt::either::map(
       parser.parse(_state, _skipper), [](fcppt::parse::result_of<decltype(parser)> &&_result) {
-        // TODO(philipp): Should we reverse this so that push_back works?
-        return fcppt::container::join(
-            result_type{std::move(fcppt::tuple::get<0>(_result))}, std::move(fcppt::tuple::get<1>(_result)));
+        if constexpr (std::is_same_v<fcppt::parse::result_of<Parser>, fcppt::unit>)
+        {
+          // The sequence drops the unit result of the first parser, so _result is
+          // only the result of the repetition: add the missing element.
+          _result.push_back(fcppt::unit{});
+
+          return std::move(_result);
+        }
+        else
+        {
+          // TODO(philipp): Should we reverse this so that push_back works?
+          return fcppt::container::join(
+              result_type{std::move(fcppt::tuple::get<0>(_result))},
+              std::move(fcppt::tuple::get<1>(_result)));
+        }
       });
 }
 
